@@ -23,14 +23,16 @@ PV_SCI = ["5.0e-01", "2.0e-05", "3.0e-03", "1.1e-01", "7.0e-07", "4.0e-02", "9.0
 # default configuration and, per dimension, the alternative values (deviations)
 DEFAULT = dict(ns=True, files=1, runs=1, spectra=1, hits=1, mods=(), prots="T", prefix="decoy_",
                desc=False, tricky=False, rotate=False, missed=True, ntt=True, nmatched=True,
-               ext_in_base=False, scores="plain", results=1, stem_tail="")
+               ext_in_base=False, scores="plain", results=1, stem_tail="", run_order="asc")
 DIMS = dict(ns=[False], files=[2], runs=[2], spectra=[2], hits=[2], mods=MODSETS[1:], prots=PROTS[1:],
             prefix=["rev_"], desc=[True], tricky=[True], rotate=[True], missed=[False], ntt=[False],
             nmatched=[False], ext_in_base=[True], scores=["pvalue", "pvalue_sci"],
             # hits of one spectrum query spread over several <search_result> elements (one per search_id; schema-legal)
             results=[2],
             # run names ending in a character that also occurs in the extension (".mzML"): suffix vs character-set handling
-            stem_tail=["_repL", "_m"])
+            stem_tail=["_repL", "_m"],
+            # runs of one file listed in an order that is not the lexical order of their names (acquisition order)
+            run_order=["desc"])
 
 
 def accession(is_target, prefix, tricky, g, j):
@@ -52,7 +54,8 @@ def build(cfg):
         x = ['<?xml version="1.0" encoding="UTF-8"?>',
              f'<msms_pipeline_analysis date="2020-01-01T00:00:00"{ns} summary_xml="file{f}.pepXML">']
         for r in range(c["runs"]):
-            stem = f"/data/exp{f}/run{r}" + c["stem_tail"]
+            rn = r if c["run_order"] == "asc" else c["runs"] - 1 - r
+            stem = f"/data/exp{f}/run{rn}" + c["stem_tail"]
             base = stem + ".mzML" if c["ext_in_base"] else stem
             x.append(f'<msms_run_summary base_name="{base}" raw_data_type="raw" raw_data=".mzML">')
             x.append('<sample_enzyme name="Trypsin"><specificity cut="KR" no_cut="P" sense="C"/></sample_enzyme>')
@@ -62,7 +65,7 @@ def build(cfg):
             for s in range(c["spectra"]):
                 scan, charge = 100 + 7 * k, 2 + k % 2
                 rt, mass = f"{600.25 + 31.5 * k:.3f}", f"{1200.4321 + 111.111 * k:.4f}"
-                x.append(f'<spectrum_query spectrum="run{r}.{scan}.{scan}.{charge}" start_scan="{scan}" '
+                x.append(f'<spectrum_query spectrum="run{rn}.{scan}.{scan}.{charge}" start_scan="{scan}" '
                          f'end_scan="{scan}" precursor_neutral_mass="{mass}" assumed_charge="{charge}" '
                          f'index="{s + 1}" retention_time_sec="{rt}">')
                 x.append("<search_result>")
